@@ -4,8 +4,8 @@ CONSTANTS
   GridMaxN = 600
   MultiMaxN = 60
   CalSizes = {2, 3, 4}
-  ScoreLo <- Neg3
-  ScoreHi = 3
+  ScoreLo <- Neg2
+  ScoreHi = 2
   WeightSeq <- W124
   AlphaSet <- Alphas4
   RankMaxN = 60
